@@ -85,13 +85,22 @@ class StmtMixin:
         return done + [Outcome("fall", c) for c in cur]
 
     def _ghost_key(self, node, table):
-        if not table or isinstance(node, (ast.If, ast.For, ast.While, ast.Try, ast.FunctionDef, ast.AsyncFunctionDef)):
+        if not table or isinstance(node, (ast.If, ast.While, ast.Try, ast.FunctionDef, ast.AsyncFunctionDef)):
             return None
+        if isinstance(node, (ast.For, ast.AsyncFor)):
+            # a whole loop is addressed by its header: "for <target> in <iter>"
+            key = f"for {ast.unparse(node.target)} in {ast.unparse(node.iter)}"
+            return key if key in table else None
         key = ast.unparse(node).strip()
         occ = getattr(self, "stmt_occ", {}).get(id(node))
         if occ is not None and f"{key}#{occ}" in table:
             return f"{key}#{occ}"
-        return key if key in table else None
+        if key in table:
+            return key
+        for tk in table:          # "<prefix>..." addresses the (long) statement that starts with <prefix>
+            if tk.endswith("...") and key.startswith(tk[:-3]):
+                return tk
+        return None
 
     def _run_ghost(self, node, st, items, key):
         for k_, asg in enumerate(items):
@@ -435,7 +444,8 @@ class StmtMixin:
                     if isinstance(sub, ast.stmt) and not isinstance(sub, (ast.If, ast.For, ast.While, ast.Try)):
                         k0 = ast.unparse(sub).strip()
                         occ = getattr(self, "stmt_occ", {}).get(id(sub))
-                        for asg in ga.get(k0, []) + (ga.get(f"{k0}#{occ}", []) if occ is not None else []):
+                        pref = [v_ for tk, v_ in ga.items() if tk.endswith("...") and k0.startswith(tk[:-3])]
+                        for asg in ga.get(k0, []) + (ga.get(f"{k0}#{occ}", []) if occ is not None else []) + [a_ for v_ in pref for a_ in v_]:
                             if not asg.startswith("assert"):
                                 nm = asg.split("=", 1)[0].strip()
                                 if nm.startswith("self."):
@@ -533,6 +543,10 @@ class StmtMixin:
             sx = s0.copy()
             self.havoc_for_loop(sx, node)
             self.assume_invs(spec, sx, loopenv(n))
+            # the iterated sequence and its length stay addressable after the loop (ghost lemmas): _seq<k>, _n<k>
+            for k_, v_ in loopenv(n).items():
+                if k_.endswith(str(ordn)) and k_ not in ("_i", "_n", "_seq"):
+                    sx.env[k_] = v_
             if self.feasible(sx):
                 if node.orelse:
                     outs += self.exec_block(node.orelse, sx)
